@@ -88,7 +88,7 @@ let run_script (type s) (step : s -> sev -> s) (init : s) (crashed : s -> bool)
         (* the last os.WriteFile to this path decides what is on disk *)
         let (ph, ch) = split_tok hx in
         let path = bytes_of_hex ph and content = if ch = "" then [] else bytes_of_hex ch in
-        xcheck := (match Stdlib.List.find_opt (fun (p, _) -> p = path) (saved_all !st) with
+        xcheck := !xcheck ^ (match Stdlib.List.find_opt (fun (p, _) -> p = path) (saved_all !st) with
             | Some (_, c) when c = content -> "1"
             | _ -> "0")
       | 'J' ->
